@@ -72,3 +72,44 @@ for _m in REQUESTS + RESPONSES:
 # diagnostic, MEI, file record, FIFO
 MIX_REQ = ['req03', 'req10', 'req05', 'req08.00', 'req2B', 'req15', 'req18']
 MIX_RSP = ['rsp06', 'rsp03', 'exc01', 'rsp08.00', 'rsp2B', 'rsp15', 'rsp18']
+
+# payloads made of framing delimiter bytes ('{' '}' ':' CR LF) in every position class
+DELIM_REQUESTS = [
+    dict(kind='req', fc=6, address=0x7B7D, value=0x3A0D),
+    dict(kind='req', fc=6, address=0x0D0A, value=0x7D7B),
+    dict(kind='req', fc=3, address=0x7B00, count=0x007D),
+    dict(kind='req', fc=0x10, address=0x7D7D, count=3, byte_count=6, registers=[0x7B7B, 0x0D0A, 0x3A3A]),
+    dict(kind='req', fc=0x0F, address=0x3A, count=16, byte_count=2,
+         bits=[bool((0x7D7B >> i) & 1) for i in range(16)]),
+    dict(kind='req', fc=0x15, groups=[(0x7B7D, 0x3A0D, bytes([0x7B, 0x7D, 0x0D, 0x0A, 0x3A, 0x7B]))]),
+    dict(kind='req', fc=8, sub=0, data=[0x7B7D, 0x0D0A]),
+]
+DELIM_RESPONSES = [
+    dict(kind='rsp', fc=6, address=0x7B7D, value=0x3A0D),
+    dict(kind='rsp', fc=3, registers=[0x7B7B, 0x7D7D, 0x0D0A, 0x3A3A]),
+    dict(kind='rsp', fc=1, bits=[bool((0x7D7B >> i) & 1) for i in range(16)]),
+    dict(kind='rsp', fc=0x11, identifier=b'{}:\r\n', run=True),
+    dict(kind='rsp', fc=0x2B, read_code=1, conformity=0x83, more=0, next_id=0, objects=[(0, b'{:}\r\n')]),
+    dict(kind='exc', fc=3, code=0x7B),
+    dict(kind='exc', fc=0x7B & 0x7F, code=0x7D),
+]
+
+# maximum-size messages (PDU at or near 253 bytes)
+LARGE_REQUESTS = [
+    dict(kind='req', fc=0x0F, address=0, count=1968, byte_count=246, bits=_bits(1968)),
+    dict(kind='req', fc=0x10, address=0, count=123, byte_count=246, registers=[(i * 257) & 0xFFFF for i in range(123)]),
+    dict(kind='req', fc=0x17, read_address=0, read_count=125, write_address=0, write_count=121, write_byte_count=242,
+         write_registers=[(i * 263) & 0xFFFF for i in range(121)]),
+    dict(kind='req', fc=0x14, groups=[(i, i + 1, 2) for i in range(35)]),
+    dict(kind='req', fc=0x15, groups=[(4, 7, bytes((i * 7) & 0xFF for i in range(238)))]),
+]
+LARGE_RESPONSES = [
+    dict(kind='rsp', fc=1, bits=_bits(2000)),
+    dict(kind='rsp', fc=3, registers=[(i * 257) & 0xFFFF for i in range(125)]),
+    dict(kind='rsp', fc=0x17, registers=[(i * 259) & 0xFFFF for i in range(125)]),
+    dict(kind='rsp', fc=0x0C, status=0, event_count=1, message_count=2, events=[(i * 5) & 0xFF for i in range(64)]),
+    dict(kind='rsp', fc=0x15, groups=[(4, 7, bytes((i * 7) & 0xFF for i in range(238)))]),
+    dict(kind='rsp', fc=0x2B, read_code=3, conformity=0x83, more=0xFF, next_id=0x85,
+         objects=[(0, b'v' * 60), (1, b'p' * 60), (2, b'r' * 60), (0x80, b'x' * 50)]),
+    dict(kind='rsp', fc=0x11, identifier=bytes(range(249)), run=True),
+]
